@@ -356,11 +356,37 @@ fn alias_under_nesting(w: &mut Worker) {
     }
 }
 
+/// An alias stands for whatever its target NAME means when the alias is invoked: the name re-aliased, taken
+/// by a function defined later, or re-defined - the alias and the direct call of the name agree each time,
+/// as a value and as the condition of if / while / not.
+fn alias_follows_its_name(w: &mut Worker) {
+    let text = "alias pred contains\nalias probe pred\nd1 = pred \"hello world\" world\np1 = probe \"hello world\" world\nunalias pred\nalias pred starts_with\nd2 = pred \"hello world\" world\np2 = probe \"hello world\" world\nif probe \"hello world\" world\nb2 = set then\nelse\nb2 = set else\nend\nn2 = not probe \"hello world\" world\nalias same is_it\nfn is_it\nreturn yes-${1}\nend\ns1 = same a\nalias eqv equals\ne1 = eqv a a\nfn equals\nreturn false\nend\ne2 = eqv a a\ne2d = equals a a\nloops = set 0\nwhile eqv a a\nloops = calc ${loops} + 1\ngoto :out\nend\n:out after = set reached";
+    crate::util::scale_case(
+        w,
+        "alias-follows-its-name retargeted",
+        text,
+        &[
+            ("d1", Some("true".into())),
+            ("p1", Some("true".into())),
+            ("d2", Some("false".into())),
+            ("p2", Some("false".into())),
+            ("b2", Some("else".into())),
+            ("n2", Some("true".into())),
+            ("s1", Some("yes-a".into())),
+            ("e1", Some("true".into())),
+            ("e2", Some("false".into())),
+            ("e2d", Some("false".into())),
+            ("loops", Some("0".into())),
+            ("after", Some("reached".into())),
+        ],
+    );
+}
+
 /// The branch taken follows the direct call's output, whatever the predicate's body looks like: a user
 /// function that returns a value, returns its argument, falls off its end or returns bare after a
 /// command that produced a (truthy) output of its own.
 fn branch_follows_output(w: &mut Worker, rig: &Rig) {
-    let bodies: [(&str, &str); 11] = [
+    let bodies: [(&str, &str); 14] = [
         ("returns-true", "return true"),
         ("returns-argument", "return ${1}"),
         ("falls-off-end-after-output", "noted = set ${1}"),
@@ -373,13 +399,18 @@ fn branch_follows_output(w: &mut Worker, rig: &Rig) {
         ("inner-if-else-returns", "if is_empty ${1}\nreturn false\nelse\nreturn ${1}\nend"),
         ("inner-loop-returns", "inner_i = set 0\nwhile less_than ${inner_i} 2\ninner_i = calc ${inner_i} + 1\nif equals ${inner_i} 2\nreturn ${1}\nend\nend\nreturn false"),
         ("calls-library-script-with-blocks", "found = array_contains ${1} ${1}\njoined = concat ${1} \"\"\nreturn ${joined}"),
+        // predicates that call other user functions for a value - which may not come: the variable the call
+        // was to fill is then undefined, whatever it held before
+        ("valueless-call-into-a-set-variable", "r0 = set true\nr0 = helper_no_value\nreturn ${r0}"),
+        ("call-with-value-into-a-set-variable", "r0 = set false\nr0 = helper_value ${1}\nreturn ${r0}"),
+        ("valueless-call-then-is-defined", "r0 = set x\nr0 = helper_no_value\nd0 = is_defined r0\nreturn ${d0}"),
     ];
     let values = ["x", "", "false", "0", "no", "a b", "true"];
     for (bname, body) in bodies {
         for scoped in [false, true] {
             for v in values {
                 let head = if scoped { "fn <scope> p" } else { "fn p" };
-                let defs = format!("{}\n{}\nend\n", head, body);
+                let defs = format!("fn helper_no_value\nhelper_q = set 1\nend\nfn helper_value\nreturn ${{1}}\nend\n{}\n{}\nend\n", head, body);
                 // the direct call decides
                 let direct = guarded(|| rig.run_after_vars(&format!("{}r = p ${{v}} z", defs), v));
                 let expected = match direct {
@@ -524,6 +555,7 @@ pub fn worker(w: &mut Worker) {
     aftermath(w, &rig);
     branch_follows_output(w, &rig);
     alias_under_nesting(w);
+    alias_follows_its_name(w);
     let vl = tier.pick(3usize, 4usize);
     let mut values: Vec<String> = Strings::new(&SIGMA[..], 0, vl).map(|v| v.concat()).collect();
     for s in SPECIAL {
@@ -623,7 +655,7 @@ pub fn crash_sig(case: &Value, kind: &str) -> String {
     format!("{}:{}:{}", kind, case["wrapper"].as_str().unwrap_or("?"), class_of(case["value"].as_str().unwrap_or("")))
 }
 
-pub const RULE: &str = "values: every string up to the length bound over {a SP \" # \\\\ $ { } % LF CR = TAB e-acute} plus 8 special values (${v}, %{v}, \\\\${v}, ${w}, 'a b', '\"a b\"', 'a  b', x=y), held in a variable and written as ${v} in first or second argument position of a capture command invoked directly, as the condition of if / elseif / while, under not, through an alias that stores the value, through an alias that is passed the value, through a user function used as predicate, through aliases whose target is `not <predicate>` (value passed or stored), and through an alias that stores the value and whose name a second alias definition then tries to take (refused); also wrappers inside wrappers (if not, while not, not not, an alias in condition position, an alias of an alias, an elseif behind a failed elseif); every wrapping line both at the top level of the script and inside the body of a user function that was itself called with two arguments. Branch family: for six predicate bodies (returning true / its argument / false after a truthy command output, falling off the end or returning bare after a command that produced an output) x plain and <scope> x 7 values the branch taken by if / elseif / while / not / an alias is the one the direct call's output dictates. Aftermath family: behind `if / elseif / while / not <user function> ${v} z` (plain and <scope> function, at top level and inside a called function, 6 values) a probe receives ${1} ${2} ${v} and a caller variable exactly as it does behind the direct call. Scale cases: 302 (thorough 3002) arguments, the first and last a value of 5000 (thorough 100000) characters of such text, through the direct call and seven wrappers. Oracle: the arguments received through the wrapper equal those received by the direct call. A failing case is classified by whether the received arguments equal what re-serialising the values into a line and parsing/binding it again yields (the recorded defect, one signature per input class) or not (a new violation). Non-trivial: the value contains a character other than plain letters. Branch families: 11 predicate bodies (5 of them with blocks of their own: inner if returning, falling through, if/else, a loop left by return, calls of library scripts) x 7 values x plain / scoped x 11 wrapping shapes, 6 of which go on behind the wrapped call (else, elseif, a second elseif, inside a while): exactly the branch decided by the direct call is taken, and the script reaches its last line. Three more wrappers: chains of aliases that store part of the arguments themselves (inner, both, three levels). Branch family also re-enters an alias: applied to itself, and around a function whose body uses it. Alias under nesting: at the bottom of a recursion of every threshold depth up to 300 (thorough 600) that runs through condition position, an assignment or a statement, an alias of a command, an alias of an alias and an alias in condition position give what the direct call gives";
+pub const RULE: &str = "values: every string up to the length bound over {a SP \" # \\\\ $ { } % LF CR = TAB e-acute} plus 8 special values (${v}, %{v}, \\\\${v}, ${w}, 'a b', '\"a b\"', 'a  b', x=y), held in a variable and written as ${v} in first or second argument position of a capture command invoked directly, as the condition of if / elseif / while, under not, through an alias that stores the value, through an alias that is passed the value, through a user function used as predicate, through aliases whose target is `not <predicate>` (value passed or stored), and through an alias that stores the value and whose name a second alias definition then tries to take (refused); also wrappers inside wrappers (if not, while not, not not, an alias in condition position, an alias of an alias, an elseif behind a failed elseif); every wrapping line both at the top level of the script and inside the body of a user function that was itself called with two arguments. Branch family: for six predicate bodies (returning true / its argument / false after a truthy command output, falling off the end or returning bare after a command that produced an output) x plain and <scope> x 7 values the branch taken by if / elseif / while / not / an alias is the one the direct call's output dictates. Aftermath family: behind `if / elseif / while / not <user function> ${v} z` (plain and <scope> function, at top level and inside a called function, 6 values) a probe receives ${1} ${2} ${v} and a caller variable exactly as it does behind the direct call. Scale cases: 302 (thorough 3002) arguments, the first and last a value of 5000 (thorough 100000) characters of such text, through the direct call and seven wrappers. Oracle: the arguments received through the wrapper equal those received by the direct call. A failing case is classified by whether the received arguments equal what re-serialising the values into a line and parsing/binding it again yields (the recorded defect, one signature per input class) or not (a new violation). Non-trivial: the value contains a character other than plain letters. Branch families: 14 predicate bodies (3 of them calling other user functions for a value that may not come; 5 of them with blocks of their own: inner if returning, falling through, if/else, a loop left by return, calls of library scripts) x 7 values x plain / scoped x 11 wrapping shapes, 6 of which go on behind the wrapped call (else, elseif, a second elseif, inside a while): exactly the branch decided by the direct call is taken, and the script reaches its last line. Three more wrappers: chains of aliases that store part of the arguments themselves (inner, both, three levels). Branch family also re-enters an alias: applied to itself, and around a function whose body uses it. Alias under nesting: at the bottom of a recursion of every threshold depth up to 300 (thorough 600) that runs through condition position, an assignment or a statement, an alias of a command, an alias of an alias and an alias in condition position give what the direct call gives. Alias follows its name: an alias of a name that is re-aliased, taken by a function defined later or re-defined runs what the name means when the alias is invoked (value, if, while, not)";
 pub const ASSUMPTIONS: &[&str] = &["the capture command returns true on its first call and false afterwards (so a while loop ends)", "classification of known findings uses the real parser and binder on a transcription of the line building in utils/eval.rs"];
 pub const EXHAUSTIVE: bool = true;
 pub const WALL_CAP_S: (u64, u64) = (55, 1500);
